@@ -293,8 +293,24 @@ func (vc *VC) entryHeap(name string) string {
 	c := strings.TrimSuffix(name, "|") + "@0|"
 	if !vc.declSet[c] {
 		vc.declare(c, vc.compSort(name))
+		if cl := closureFact(c, vc.compSort(name), "|alloc@0|"); cl != "" {
+			vc.global(cl)
+		}
 	}
 	return c
+}
+
+// closureFact states heap closure for a pointer- or slice-valued component:
+// everything stored in it refers to memory allocated before the given
+// allocation counter (Go memory safety), and stored slices are well formed.
+func closureFact(c, sort, alloc string) string {
+	switch sort {
+	case "(Array Addr Addr)":
+		return fmt.Sprintf("(forall ((a! Addr)) (! (< (rootOf (select %s a!)) %s) :pattern ((select %s a!))))", c, alloc, c)
+	case "(Array Addr Slice)":
+		return fmt.Sprintf("(forall ((a! Addr)) (! (and (wfslice (select %s a!)) (< (rootOf (sarr (select %s a!))) %s)) :pattern ((select %s a!))))", c, c, alloc, c)
+	}
+	return ""
 }
 
 func (vc *VC) heap(st *State, name string) string {
